@@ -23,9 +23,8 @@ def run(prop, only=None, episodes=None):
             continue
         d = tempfile.mkdtemp(prefix="fa-mut-")
         try:
-            shutil.copytree("/repo/functional_algorithms", d + "/functional_algorithms", ignore=shutil.ignore_patterns("__pycache__"))
-            for f in ("pyproject.toml",):
-                shutil.copy("/repo/" + f, d)
+            # /repo's HEAD, not its working tree: other tools may be running against it at the same time
+            subprocess.run("git -C /repo archive HEAD functional_algorithms pyproject.toml | tar -x -C " + d, shell=True, check=True)
             for fn, old, new in m["edits"]:
                 p = os.path.join(d, fn)
                 s = open(p).read()
